@@ -737,7 +737,9 @@ func needSpace(a, b string) bool {
 	return false
 }
 
-var spaces = []string{" ", "  ", "\t", "\n", " \n ", "\r\n", " ", " "}
+// every rune of unicode.IsSpace occurs (the lexer's IsSpace is the documented white space rule)
+var spaces = []string{" ", "  ", "\t", "\n", " \n ", "\r\n", "\u00a0 ", "\u2003", "\v", "\f", "\r", "\u0085", "\u1680", "\u2000", "\u2001", "\u2002",
+	"\u2004", "\u2005", "\u2006", "\u2007", "\u2008", "\u2009", "\u200a", "\u2028", "\u2029", "\u202f", "\u205f", "\u3000", " \v ", "\f\t"}
 
 func (c *Ctx) layout(toks []string, mode int) string {
 	var b strings.Builder
